@@ -24,6 +24,11 @@ fn adsr_op(fs: f32) -> BoxedStrategy<AdsrOp> {
         3 => sustain_level().prop_map(AdsrOp::SetSustain),
         2 => prop_oneof![3 => 0.2f32..1.5, 1 => Just(1.0f32), 1 => Just(2.0f32)].prop_map(AdsrOp::CutShort),
         1 => (proptest::sample::select(vec![255u16, 256, 257, 300, 512, 40, 3]), 0u8..6).prop_map(|(n, ticks)| AdsrOp::GateBurst { n, ticks }),
+        1 => prop_oneof![
+            3 => (0u8..3, adsr_time(fs), adsr_time(fs)).prop_map(|(w, a, b)| (w, a, b)),
+            1 => (sustain_level(), sustain_level()).prop_map(|(a, b)| (3u8, a, b)),
+        ]
+        .prop_flat_map(|(which, a, b)| proptest::sample::select(vec![255u16, 256, 257, 511, 512, 20, 3]).prop_map(move |n| AdsrOp::ParamBurst { which, a, b, n })),
         2 => (0u8..3, 0u8..3, prop_oneof![Just(0.0f32), -1e-3f32..1e-3, -1e-5f32..1e-5, Just(1e-6f32), Just(-1e-6f32), Just(2e-4f32), Just(-2e-4f32)]).prop_map(|(dst, src, rel)| AdsrOp::NudgeTime { dst, src, rel }),
     ]
     .boxed()
